@@ -18,6 +18,9 @@ from spec import decaf_spec as SP
 # ---- GUARD-SET -----------------------------------------------------------------------------------
 
 def guard_set(rep, cfg):
+    """the decoder's verdict as a boolean function of the specification's four guard conditions: decided by a truth table over the atoms, so
+    that the order of the checks, their grouping into `||` / early returns, and which of them share an `if` do not matter"""
+    import itertools
     p = cfg.p_decode(rep)
     if p is None:
         return
@@ -26,40 +29,86 @@ def guard_set(rep, cfg):
     errs, oks, other = C.split_result(rep, cfg, out)
     bytes_t = C.bytes_of_encoding_param(cfg)
     spec, _ = C.decode_guard_spec(bytes_t)
-    spec_keys = {N.cond(t): nm for nm, t in spec.items()}
     key = "GUARD/%s/decode" % cfg.name
-    # each Err flow: its *own* rejecting condition is the last conjunct of its path condition
-    seen = {}
-    for pc, ev in errs:
-        own = N.cond(pc[-1]) if pc else ("true",)
-        nm = spec_keys.get(own)
-        okv = ev.op == "variant" and ev.args[0] == "InvalidEncoding"
-        rep.ob("%s:err-value:%s" % (key, nm or "extra#%d" % len(seen)), okv,
-               "rejections must return EncodingError::InvalidEncoding; got %s" % Tm.show(ev, maxdepth=3), where=cfg.where(p), nontrivial=False)
-        if nm is None:
-            rep.ob("%s:extra-guard#%d" % (key, len(seen)), False,
-                   "decode rejects under a condition that is not one of the specification's four: %s" % Tm.show(pc[-1], maxdepth=7), where=cfg.where(p))
-        seen[own] = nm
-        # earlier conjuncts must be negations of the other spec guards (order free)
-        for c in pc[:-1]:
-            kc = N.cond(c)
-            if N.cnot(kc) not in spec_keys and kc not in spec_keys:
-                rep.ob("%s:foreign-condition" % key, False, "a rejection is gated by a condition outside the specification: %s" % Tm.show(c, maxdepth=6), where=cfg.where(p))
-    for k2, nm in spec_keys.items():
-        rep.ob("%s:%s" % (key, nm), k2 in seen,
-               "decode must reject when [%s]: %s" % (nm, "present" if k2 in seen else "MISSING - no rejecting flow has this condition; flows: " +
-                                                   "; ".join(Tm.show(pc[-1], maxdepth=5) for pc, _ in errs)),
-               where=cfg.where(p), sample={"obligation": "%s:%s" % (key, nm), "spec_guard": Tm.show(spec[{v: k for k, v in spec_keys.items()}[nm] if False else nm], maxdepth=6), "found": k2 in seen})
-    # the success flow is gated by exactly the negations of the four
-    if len(oks) == 1:
-        pc = oks[0][0]
-        got = {N.cond(c) for c in pc}
-        want = {N.cnot(k2) for k2 in spec_keys}
-        rep.ob("%s:success-gate" % key, got == want,
-               "Ok must be returned iff none of the four rejection conditions holds; success path condition: %s" % "; ".join(Tm.show(c, maxdepth=5) for c in pc),
-               where=cfg.where(p))
-    else:
-        rep.ob("%s:success-gate" % key, False, "expected exactly one success flow, found %d" % len(oks), where=cfg.where(p))
+
+    def leaves(ck, acc):
+        if ck[0] in ("not",):
+            leaves(ck[1], acc)
+        elif ck[0] in ("and", "or", "iff"):
+            for x in ck[1:]:
+                leaves(x, acc)
+        elif ck[0] == "ite":
+            for x in ck[1:]:
+                leaves(x, acc)
+        elif ck[0] not in ("true", "false"):
+            acc.add(ck)
+        return acc
+
+    def ev(ck, env):
+        t = ck[0]
+        if t == "true":
+            return True
+        if t == "false":
+            return False
+        if t == "not":
+            return not ev(ck[1], env)
+        if t == "and":
+            return all(ev(x, env) for x in ck[1:])
+        if t == "or":
+            return any(ev(x, env) for x in ck[1:])
+        if t == "iff":
+            return ev(ck[1], env) == ev(ck[2], env)
+        if t == "ite":
+            return ev(ck[2], env) if ev(ck[1], env) else ev(ck[3], env)
+        return env[ck]
+    spec_c = {nm: N.cond(t) for nm, t in spec.items()}
+    spec_atoms = set()
+    for ck in spec_c.values():
+        leaves(ck, spec_atoms)
+    flows = [("err", [N.cond(c) for c in pc], evv) for pc, evv in errs] + [("ok", [N.cond(c) for c in pc], v) for pc, v in oks]
+    code_atoms = set()
+    for _, pcs, _ in flows:
+        for ck in pcs:
+            leaves(ck, code_atoms)
+    for pc, evv in errs:
+        okv = evv.op == "variant" and evv.args[0] == "InvalidEncoding"
+        rep.ob("%s:err-value" % key, okv, "rejections must return EncodingError::InvalidEncoding; got %s" % Tm.show(evv, maxdepth=3), where=cfg.where(p), nontrivial=False)
+    foreign = code_atoms - spec_atoms
+    rep.ob("%s:foreign-condition" % key, not foreign and not other,
+           "the verdict must depend on the specification's four conditions only; foreign: %s" % [str(a)[:120] for a in sorted(foreign, key=repr)][:3], where=cfg.where(p))
+    atoms = sorted(spec_atoms | code_atoms, key=repr)
+    if len(atoms) > 12:
+        rep.ob("%s:success-gate" % key, False, "too many condition atoms (%d) for the truth table" % len(atoms), where=cfg.where(p))
+        return
+    missing = {nm: None for nm in spec_c}
+    gate_bad = None
+    overlap = None
+    for vals in itertools.product((False, True), repeat=len(atoms)):
+        env = dict(zip(atoms, vals))
+        hit = [kind for kind, pcs, _ in flows if all(ev(ck, env) for ck in pcs)]
+        code_ok = "ok" in hit
+        if len(hit) != 1 and overlap is None:
+            overlap = (env, hit)
+        spec_ok = not any(ev(ck, env) for ck in spec_c.values())
+        if code_ok != spec_ok and gate_bad is None:
+            gate_bad = (env, code_ok, spec_ok)
+        for nm, ck in spec_c.items():
+            if ev(ck, env) and code_ok and missing[nm] is None:
+                missing[nm] = env
+    def show_env(env):
+        names = {v: k for k, v in spec_c.items()}
+        return ", ".join("%s=%s" % (names.get(a, names.get(("not", a), str(a)[:50])), int(b)) for a, b in env.items())
+    for nm in spec_c:
+        rep.ob("%s:%s" % (key, nm), missing[nm] is None,
+               "decode must reject whenever [%s] holds; %s" % (nm, "it does" if missing[nm] is None else "it ACCEPTS under " + show_env(missing[nm])),
+               where=cfg.where(p), sample={"obligation": "%s:%s" % (key, nm), "spec_guard": Tm.show(spec[nm], maxdepth=6), "rows": 2 ** len(atoms)})
+    rep.ob("%s:success-gate" % key, gate_bad is None and len(oks) >= 1,
+           "Ok must be returned iff none of the four rejection conditions holds (truth table over %d atoms); %s" % (
+               len(atoms), "agrees on all %d rows" % 2 ** len(atoms) if gate_bad is None else "differs at %s: code %s, specification %s" % (
+                   show_env(gate_bad[0]), "accepts" if gate_bad[1] else "rejects", "accepts" if gate_bad[2] else "rejects")),
+           where=cfg.where(p))
+    rep.ob("%s:flows-partition" % key, overlap is None, "the return flows must partition the input space; row %s is covered by %s" % (
+        show_env(overlap[0]) if overlap else "-", overlap[1] if overlap else "-"), where=cfg.where(p), nontrivial=False)
 
 
 # ---- CANON-PARSE ----------------------------------------------------------------------------------
